@@ -26,10 +26,10 @@ Inductive ItemsIn (m : bytes) (ok : N -> Prop) : N -> list ritem -> N -> Prop :=
 | II_nameu p n e1 r e : NameAtO m ok p n e1 -> ItemsIn m ok e1 r e -> ItemsIn m ok p (RNameU n :: r) e.
 
 Definition agree_on (ok : N -> Prop) (m m' : bytes) : Prop :=
-  mlen m <= mlen m' /\ forall i v, ok i -> get m i = Some v -> get m' i = Some v.
+  forall i v, ok i -> get m i = Some v -> get m' i = Some v.
 
 Lemma NameAtO_agree m m' (ok : N -> Prop) p n e1 : agree_on ok m m' -> NameAtO m ok p n e1 -> NameAtO m' ok p n e1.
-Proof. intros [_ A] (n' & H & C & V). exists n'. split; [eapply NameIn_agree; eauto|auto]. Qed.
+Proof. intros A (n' & H & C & V). exists n'. split; [eapply NameIn_agree; eauto|auto]. Qed.
 Lemma NameAtO_weaken m (ok ok' : N -> Prop) p n e1 : (forall i, ok i -> ok' i) -> NameAtO m ok p n e1 -> NameAtO m ok' p n e1.
 Proof. intros W (n' & H & C & V). exists n'. split; [eapply NameIn_weaken; eauto|auto]. Qed.
 Lemma NameAtO_below m (ok : N -> Prop) p n e1 : NameAtO m ok p n e1 -> NameAtO m (fun i => ok i /\ i < mlen m) p n e1.
@@ -37,9 +37,10 @@ Proof. intros (n' & H & C & V). exists n'. split; [apply NameIn_below; exact H|a
 Lemma NameAtO_end m (ok : N -> Prop) p n e1 : NameAtO m ok p n e1 -> p < e1 /\ e1 <= mlen m.
 Proof. intros (n' & H & _). eapply NameIn_end_le; eauto. Qed.
 
-Lemma BytesAtO_agree m m' (ok : N -> Prop) p b : agree_on ok m m' -> BytesAtO m ok p b -> BytesAtO m' ok p b.
+Lemma BytesAtO_agree m m' (ok : N -> Prop) p b :
+  agree_on ok m m' -> p + mlen b <= mlen m' -> BytesAtO m ok p b -> BytesAtO m' ok p b.
 Proof.
-  intros [L A] (H & O & E). split; [|split; [exact O|lia]].
+  intros A L (H & O & E). split; [|split; [exact O|exact L]].
   eapply bytes_at_agree; eauto.
 Qed.
 Lemma BytesAtO_weaken m (ok ok' : N -> Prop) p b : (forall i, ok i -> ok' i) -> BytesAtO m ok p b -> BytesAtO m ok' p b.
@@ -47,10 +48,18 @@ Proof. intros W (H & O & E). split; [exact H|split; [intros; apply W, O; auto|ex
 Lemma BytesAtO_below m (ok : N -> Prop) p b : BytesAtO m ok p b -> BytesAtO m (fun i => ok i /\ i < mlen m) p b.
 Proof. intros (H & O & E). split; [exact H|split; [|exact E]]. intros i Hi. split; [apply O; exact Hi|lia]. Qed.
 
-Lemma ItemsIn_agree m m' (ok : N -> Prop) p items e : agree_on ok m m' -> ItemsIn m ok p items e -> ItemsIn m' ok p items e.
+Lemma ItemsIn_mono m (ok : N -> Prop) p items e : ItemsIn m ok p items e -> p <= e.
 Proof.
-  intros A H. induction H; [constructor| | |].
-  - apply II_bytes; auto. eapply BytesAtO_agree; eauto.
+  intros H. induction H as [p | p bs r e _ _ IH | p n e1 r e Hn _ IH | p n e1 r e Hn _ IH]; try lia.
+  - apply NameAtO_end in Hn. lia.
+  - apply NameAtO_end in Hn. lia.
+Qed.
+
+Lemma ItemsIn_agree m m' (ok : N -> Prop) p items e :
+  agree_on ok m m' -> e <= mlen m' -> ItemsIn m ok p items e -> ItemsIn m' ok p items e.
+Proof.
+  intros A L H. induction H as [p | p bs r e Hb Hr IH | p n e1 r e Hn Hr IH | p n e1 r e Hn Hr IH]; [constructor| | |].
+  - apply II_bytes; auto. eapply BytesAtO_agree; eauto. apply ItemsIn_mono in Hr. lia.
   - eapply II_name; eauto. eapply NameAtO_agree; eauto.
   - eapply II_nameu; eauto. eapply NameAtO_agree; eauto.
 Qed.
@@ -79,14 +88,14 @@ Qed.
 
 Lemma agree_on_app (ok : N -> Prop) m x : agree_on ok m (m ++ x).
 Proof.
-  split; [rewrite mlen_app; lia|]. intros i v _ H. rewrite get_app_l; [exact H|]. eapply get_some_lt; eauto.
+  intros i v _ H. rewrite get_app_l; [exact H|]. eapply get_some_lt; eauto.
 Qed.
 
 (* ------------------------------------------------------------- questions *)
 
 Definition wf_q (q : question) : Prop := name_ok (q_name q) /\ q_type q < 65536 /\ q_class q < 65536.
 Definition wf_item (it : ritem) : Prop :=
-  match it with RBytes b => wf_bytes b | RName n => name_ok n | RNameU n => name_ok n end.
+  match it with RBytes b => True | RName n => name_ok n | RNameU n => name_ok n end.
 Definition wf_r (r : rrecord) : Prop :=
   name_ok (r_owner r) /\ r_type r < 65536 /\ r_class r < 65536 /\ r_ttl r < 4294967296 /\
   Forall wf_item (r_data r).
@@ -114,17 +123,20 @@ Lemma okb_mono a b i : a <= b -> okb a i -> okb b i.
 Proof. unfold okb. lia. Qed.
 
 Lemma agree_on_okb_mono a b m m' : a <= b -> agree_on (okb b) m m' -> agree_on (okb a) m m'.
-Proof. intros L [X A]. split; [exact X|]. intros i v Hi. apply A. eapply okb_mono; eauto. Qed.
+Proof. intros L A i v Hi. apply A. eapply okb_mono; eauto. Qed.
 
-Lemma QAt_agree m m' p q e : agree_on (okb e) m m' -> QAt m p q e -> QAt m' p q e.
+Lemma QAt_agree m m' p q e : agree_on (okb e) m m' -> e <= mlen m' -> QAt m p q e -> QAt m' p q e.
 Proof.
-  intros A (e1 & Hn & Hb & E & W & L). exists e1. split; [eapply NameAtO_agree; eauto|].
+  intros A Le (e1 & Hn & Hb & E & W & L). exists e1. split; [eapply NameAtO_agree; eauto|].
   split; [eapply BytesAtO_agree; eauto|auto].
+  rewrite !mlen_app. change (mlen (be16 (q_type q))) with 2. change (mlen (be16 (q_class q))) with 2. lia.
 Qed.
-Lemma RAt_agree m m' p r e : agree_on (okb e) m m' -> RAt m p r e -> RAt m' p r e.
+Lemma RAt_agree m m' p r e : agree_on (okb e) m m' -> e <= mlen m' -> RAt m p r e -> RAt m' p r e.
 Proof.
-  intros A (e1 & Hn & Hb & Hi & X). exists e1. split; [eapply NameAtO_agree; eauto|].
-  split; [eapply BytesAtO_agree; eauto|]. split; [eapply ItemsIn_agree; eauto|exact X].
+  intros A Le (e1 & Hn & Hb & Hi & X). exists e1. split; [eapply NameAtO_agree; eauto|].
+  split; [eapply BytesAtO_agree; eauto|split; [eapply ItemsIn_agree; eauto|exact X]].
+  rewrite !mlen_app. change (mlen (be16 (r_type r))) with 2. change (mlen (be16 (r_class r))) with 2.
+  change (mlen (be32 (r_ttl r))) with 4. change (mlen (be16 (e - (e1 + 10)))) with 2. lia.
 Qed.
 Lemma QAt_end m p q e : QAt m p q e -> p < e /\ e <= mlen m.
 Proof.
@@ -148,17 +160,17 @@ Proof.
   induction 1 as [p|p r e1 rs e Hr _ IH]; [lia|]. apply RAt_end in Hr. lia.
 Qed.
 
-Lemma QsAt_agree m m' p qs e : agree_on (okb e) m m' -> QsAt m p qs e -> QsAt m' p qs e.
+Lemma QsAt_agree m m' p qs e : agree_on (okb e) m m' -> e <= mlen m' -> QsAt m p qs e -> QsAt m' p qs e.
 Proof.
-  intros A H. induction H as [p|p q e1 qs e Hq Hs IH]; [constructor|].
+  intros A Le H. induction H as [p|p q e1 qs e Hq Hs IH]; [constructor|].
   pose proof (QsAt_end _ _ _ _ Hs) as [L _].
-  econstructor; [eapply QAt_agree; [eapply agree_on_okb_mono; eauto|exact Hq]|apply IH; exact A].
+  econstructor; [eapply QAt_agree; [eapply agree_on_okb_mono; eauto|lia|exact Hq]|apply IH; auto].
 Qed.
-Lemma RsAt_agree m m' p rs e : agree_on (okb e) m m' -> RsAt m p rs e -> RsAt m' p rs e.
+Lemma RsAt_agree m m' p rs e : agree_on (okb e) m m' -> e <= mlen m' -> RsAt m p rs e -> RsAt m' p rs e.
 Proof.
-  intros A H. induction H as [p|p r e1 rs e Hr Hs IH]; [constructor|].
+  intros A Le H. induction H as [p|p r e1 rs e Hr Hs IH]; [constructor|].
   pose proof (RsAt_end _ _ _ _ Hs) as [L _].
-  econstructor; [eapply RAt_agree; [eapply agree_on_okb_mono; eauto|exact Hr]|apply IH; exact A].
+  econstructor; [eapply RAt_agree; [eapply agree_on_okb_mono; eauto|lia|exact Hr]|apply IH; auto].
 Qed.
 
 Lemma QsAt_snoc m p qs e q e' : QsAt m p qs e -> QAt m e q e' -> QsAt m p (qs ++ [q]) e'.
